@@ -384,6 +384,10 @@ func C09Cases(c *Ctx, w *World, rng *rand.Rand, reached []int, nRandom int) []*H
 	}
 	add(&GenSpec{Plan: planIdentity()}, 0)
 	add(&GenSpec{Plan: planIdentity()}, 1) // repeat at another location
+	// every way of naming the working directory, systematically
+	for _, cw := range []string{"abs", "rel", "abs-slash", "symlink"} {
+		add(&GenSpec{Plan: planIdentity(), Cwd: cw}, 0)
+	}
 	add(&GenSpec{Plan: planAll("reverse", 0, 0)}, 0)
 	add(&GenSpec{Plan: planAll("rotate", 1, 0)}, 0)
 	for _, s := range reached {
